@@ -26,24 +26,27 @@ FINDINGS = {
     "C29-name-mismatch": "ReadSwampName returns a name other than the one the file was written under",
 }
 
-ENGINE = {"v3", "v3app", "v3open", "v2", "v2app", "v2resv", "v3cmp", "v2cmp"}
+ENGINE = {"v3", "v3app", "v3open", "v2", "v2app", "v2resv", "v3cmp", "v2cmp", "v3torn"}
 
 
 def oracle(ops, impl):
     """Spec on implementation replies: engine-written files answer their name; the listing of a
     case is exactly the three-part names of its files."""
     bad = []
-    expect = set()
+    expect = []          # per file of the case, in creation order: its three-part name (hex) or None
     listing_ok = True
     for i, (op, rep) in enumerate(zip(ops, impl)):
         f = op.split(" ")
         if f[0] == "case":
-            expect, listing_ok = set(), True
+            expect, listing_ok = [], True
+        elif f[0] == "wipe":
+            expect = []
+        elif f[0] == "rmlast":
+            expect = expect[:-1]
         elif f[0] == "create":
             if rep == "ok":
                 n = S.spec_bytes(f[1])
-                if n.count(b"/") >= 2:
-                    expect.add(n.hex() or "-")
+                expect.append((n.hex() or "-") if n.count(b"/") >= 2 else None)
         elif f[0] == "f":
             want = S.spec_bytes(f[2])
             if f[3] in ENGINE:
@@ -52,14 +55,21 @@ def oracle(ops, impl):
                     bad.append((i, "ReadSwampName of a %s file written under a %d-byte name returned %s" % (f[3], len(want), got[:60]),
                                 "C29-long-name-truncated" if len(want) > 65535 else None))
                     listing_ok = False
-                elif want.count(b"/") >= 2:
-                    expect.add(want.hex())
+                    expect.append(None)
+                else:
+                    expect.append(want.hex() if want.count(b"/") >= 2 else None)
+            else:
+                # not engine-written: whatever name it answers, it is a file of the directory
+                got = rep[5:] if rep.startswith("name ") and not rep.startswith("name err") else ""
+                raw = bytes.fromhex(got) if got and got != "-" else b""
+                expect.append(got if raw.count(b"/") >= 2 else None)
         elif f[0] == "scan" and listing_ok:
             names = rep.split("names=")[-1]
             got = set() if names == "none" else set(names.split(","))
-            if got != expect:
+            want_set = set(x for x in expect if x)
+            if got != want_set:
                 bad.append((i, "explorer listing differs from the files on disk: missing %s, extra %s" %
-                            (sorted(expect - got)[:2], sorted(got - expect)[:2]), None))
+                            ([x[:40] for x in sorted(want_set - got)][:2], [x[:40] for x in sorted(got - want_set)][:2]), None))
     return bad
 
 
